@@ -157,7 +157,17 @@ func checkDecoderSlots(r *Report, rule string) {
 			continue
 		}
 		st := sts[0]
-		V := P.headersThroughHelper(st.val)
+		sv := st.val
+		// the value may be built by a helper that returns it (by value) next
+		// to its verdict: what that helper returns on success
+		for k := 0; k < 2 && (sv.Op == "res" || sv.Op == "call"); k++ {
+			nv := P.expandOuter(sv)
+			if nv.eq(sv) {
+				break
+			}
+			sv = nv
+		}
+		V := P.headersThroughHelper(sv)
 		type slot struct{ field, wire string }
 		slots := []slot{{"Headers.RawProtected", "Protected"}, {"Headers.RawUnprotected", "Unprotected"}}
 		stt := T.Underlying().(*types.Struct)
